@@ -87,7 +87,7 @@ def term_str(t):
 
 # --------------------------------------------------------------------------- facts
 class Facts:
-    def __init__(self, path):
+    def __init__(self, path, inline_unknown=True):
         d = json.load(open(path))
         self.raw = d
         self.crate = d["crate"]
@@ -101,6 +101,9 @@ class Facts:
         self.impls = d["impls"]
         self.statics = d["statics"]
         self.stolen = d["stolen"]
+        self.inlined = {}
+        if inline_unknown:
+            _inline_unknown_helpers(d, self.inlined)
         for f in d["functions"]:
             fid = f["id"]
             key = fid
@@ -130,8 +133,9 @@ class Facts:
         return m[0] if len(m) == 1 else None
 
     def children(self, fn):
-        """Closures / coroutines defined directly inside fn."""
-        return [g for g in self.F.values() if g.raw.get("parent") == fn.raw["id"] and g is not fn]
+        """Closures / coroutines defined directly inside fn (or inside a helper that was inlined into it)."""
+        parents = set([fn.raw["id"]]) | set(fn.raw.get("inlined", []))
+        return [g for g in self.F.values() if g.raw.get("parent") in parents and g is not fn and g.raw["kind"] == "Closure"]
 
     def descendants(self, fn):
         out = []
@@ -787,6 +791,142 @@ class Fn:
                 break
         return tainted, sinks
 
+    # ----------------------------------------------------------- path-sensitive boolean facts
+    def bool_states_at(self, site, max_states=40000):
+        """Path-sensitive facts about boolean tests on every path from entry to block `site`.
+
+        Each boolean-producing call or comparison is an *atom* keyed by its block: ("call", bb) or
+        ("cmp", bb, stmt-index).  The analysis tracks, per path, which atom (possibly negated) or
+        constant every bool local holds — through copies, `!`, `a || b` / `a && b` lowering, `let flag = ..;
+        if flag`, `match flag` — and records the truth value an atom must have had for the path to
+        take each switch edge.  Returns a list of dicts {atom: bool}, one per distinct path state
+        reaching `site` (empty list: site unreachable), or None if the state budget is exceeded.
+        A guard expressed as `edge_dominates` is the special case of one switch directly on one atom."""
+        self.succ(0)
+        atom_of_call = {}
+        for blk in self.blocks:
+            t = blk["term"]
+            if t["t"] == "call" and not blk["cleanup"] and not t["dest"]["p"] and self.local_ty(t["dest"]["l"]) == "bool":
+                atom_of_call[blk["bb"]] = ("call", blk["bb"])
+        results = []
+        seen = set()
+        # state: (bb, vals: tuple sorted (local, val), facts: tuple sorted (atom, bool))
+        # val: ("c", b) | ("a", atom, neg)
+        start = (0, (), ())
+        work = [start]
+        n = 0
+        while work:
+            bb, vals_t, facts_t = work.pop()
+            key = (bb, vals_t, facts_t)
+            if key in seen:
+                continue
+            seen.add(key)
+            n += 1
+            if n > max_states:
+                return None
+            vals = dict(vals_t)
+            facts = dict(facts_t)
+            if bb == site:
+                results.append(facts)
+                continue
+            blk = self.blocks[bb]
+            for i, st in enumerate(blk["st"]):
+                if st["s"] != "assign" or st["pl"]["p"]:
+                    continue
+                l = st["pl"]["l"]
+                rv = st["rv"]
+                k = rv["rv"]
+                new = None
+                if k == "use":
+                    op = rv["op"]
+                    if op.get("k") == "const" and op.get("val") and "int" in op["val"] and op.get("ty") == "bool":
+                        new = ("c", bool(op["val"]["int"]))
+                    elif op.get("k") in ("copy", "move") and not op["pl"]["p"] and op["pl"]["l"] in vals:
+                        new = vals[op["pl"]["l"]]
+                elif k == "unop" and rv["op"] == "Not":
+                    op = rv["a"]
+                    if op.get("k") in ("copy", "move") and not op["pl"]["p"] and op["pl"]["l"] in vals:
+                        v = vals[op["pl"]["l"]]
+                        new = ("c", not v[1]) if v[0] == "c" else ("a", v[1], not v[2])
+                elif k == "binop" and rv["op"] in ("Eq", "Ne", "Lt", "Le", "Gt", "Ge") and self.local_ty(l) == "bool":
+                    atom = ("cmp", bb, i)
+                    facts.pop(atom, None)
+                    for x in [x for x, v in vals.items() if v[0] == "a" and v[1] == atom]:
+                        del vals[x]
+                    new = ("a", atom, False)
+                if new is not None:
+                    vals[l] = new
+                else:
+                    vals.pop(l, None)
+            t = blk["term"]
+            if t["t"] == "call":
+                d = t["dest"]
+                if not d["p"]:
+                    vals.pop(d["l"], None)
+                if bb in atom_of_call:
+                    atom = atom_of_call[bb]
+                    facts.pop(atom, None)
+                    for x in [x for x, v in vals.items() if v[0] == "a" and v[1] == atom]:
+                        del vals[x]
+                    vals[d["l"]] = ("a", atom, False)
+            succs = self._succ[bb]
+            if t["t"] == "switch" and len(succs) > 1:
+                dl = t["discr"]["pl"]["l"] if t["discr"].get("k") in ("copy", "move") and not t["discr"]["pl"]["p"] else None
+                v = vals.get(dl) if dl is not None else None
+                false_t = None
+                for val, tgt in t["targets"]:
+                    if val == 0:
+                        false_t = tgt
+                if v is not None and false_t is not None and self.local_ty(dl) == "bool":
+                    true_t = t["otherwise"]
+                    if v[0] == "c":
+                        succ_list = [(true_t if v[1] else false_t, None)]
+                    else:
+                        atom, neg = v[1], v[2]
+                        succ_list = []
+                        for tgt, holds in ((true_t, True), (false_t, False)):
+                            av = holds != neg      # value the atom must have for this edge
+                            if atom in facts and facts[atom] != av:
+                                continue
+                            succ_list.append((tgt, (atom, av)))
+                    for tgt, fact in succ_list:
+                        if tgt not in succs and tgt is not None:
+                            # edge pruned by the static pruner
+                            continue
+                        f2 = dict(facts)
+                        if fact:
+                            f2[fact[0]] = fact[1]
+                        work.append((tgt, tuple(sorted(vals.items())), tuple(sorted(f2.items()))))
+                    continue
+            vt, ft = tuple(sorted(vals.items())), tuple(sorted(facts.items()))
+            for sx in succs:
+                work.append((sx, vt, ft))
+        return results
+
+    def guarded_by(self, site, atoms_true=(), atoms_false=()):
+        """Every path to `site` has established one of `atoms_true` as true or one of `atoms_false` as
+        false?  atoms are ("call", bb) / ("cmp", bb, i).  Returns (ok, counterexample-facts or None);
+        unreachable sites are vacuously guarded; budget overflow counts as not guarded."""
+        states = self.bool_states_at(site)
+        if states is None:
+            return False, {"budget": True}
+        for fs in states:
+            if any(fs.get(a) is True for a in atoms_true) or any(fs.get(a) is False for a in atoms_false):
+                continue
+            return False, fs
+        return True, None
+
+    def guarded_by_all(self, site, atoms_true=(), atoms_false=()):
+        """Every path to `site` has established ALL of `atoms_true` as true and ALL of `atoms_false` as false."""
+        states = self.bool_states_at(site)
+        if states is None:
+            return False, {"budget": True}
+        for fs in states:
+            if all(fs.get(a) is True for a in atoms_true) and all(fs.get(a) is False for a in atoms_false):
+                continue
+            return False, fs
+        return True, None
+
     def dump(self):
         out = ["fn %s  [%s]  argc=%d%s" % (self.id, self.raw["span"], self.argc, " coroutine" if self.raw.get("coroutine") else "")]
         for nm, pls in sorted(self.names.items()):
@@ -942,3 +1082,206 @@ def normalise_le(cmp):
         elif op == "Ne":
             out.append(("ne", a, b, edge))
     return out
+
+
+# --------------------------------------------------------------------------- helper inlining
+_KNOWN = None
+
+
+def known_functions():
+    """tables/known_functions.txt: the functions the rules were written against (membership test only)."""
+    global _KNOWN
+    if _KNOWN is None:
+        import os
+        p = os.path.join(os.path.dirname(os.path.dirname(os.path.abspath(__file__))), "tables", "known_functions.txt")
+        _KNOWN = set()
+        if os.path.exists(p):
+            for line in open(p):
+                line = line.rstrip("\n")
+                if line and not line.startswith("#") and "\t" in line:
+                    _KNOWN.add(tuple(line.split("\t", 1)))
+        else:
+            _KNOWN = None
+    return _KNOWN
+
+
+def _remap(o, loff, boff):
+    """Deep copy of a MIR fragment with locals shifted by loff and block numbers by boff."""
+    if isinstance(o, list):
+        return [_remap(x, loff, boff) for x in o]
+    if not isinstance(o, dict):
+        return o
+    if "l" in o and "p" in o and len(o) == 2:
+        return {"l": o["l"] + loff, "p": [({**e, "idx": e["idx"] + loff} if isinstance(e, dict) and "idx" in e else e) for e in o["p"]]}
+    out = {}
+    for k, v in o.items():
+        if k in ("to", "otherwise", "imag", "bb") and isinstance(v, int):
+            out[k] = v + boff
+        elif k == "drop" and isinstance(v, int):
+            out[k] = v + boff if v >= 0 else v
+        elif k == "targets" and isinstance(v, list):
+            out[k] = [[a, b + boff] for a, b in v]
+        else:
+            out[k] = _remap(v, loff, boff)
+    return out
+
+
+def _inline_unknown_helpers(d, record, max_blocks=120, max_depth=4):
+    """Inline the MIR of crate-local helper functions that are not on tables/known_functions.txt into
+    their callers, so that `extract a block into a private helper` does not hide code from the rules.
+    Only plain functions (no coroutines), non-recursive, of bounded size; closures defined inside a
+    helper stay separate bodies and are re-parented through raw["inlined"]."""
+    known = known_functions()
+    if known is None:
+        return
+    crate = d["crate"]
+    by_id = {}
+    for f in d["functions"]:
+        by_id.setdefault(f["id"], []).append(f)
+    cand = {}
+    for f in d["functions"]:
+        if f["kind"] not in ("Fn", "AssocFn") or (crate, f["id"]) in known:
+            continue
+        if len(by_id[f["id"]]) != 1 or f.get("coroutine") or len(f["blocks"]) > max_blocks:
+            continue
+        if f["id"].startswith("<") and " as " in f["id"].split(">::")[0]:
+            continue  # trait impl methods are reached through dispatch, keep them as functions
+        if any(st["s"] == "assign" and st["rv"]["rv"] == "agg" and st["rv"].get("agg") in ("coroutine", "coroutine_closure") for b in f["blocks"] for st in b["st"]):
+            continue  # async fn wrapper: its body is a coroutine, not inlinable here
+        cand[f["id"]] = f
+    if not cand:
+        return
+
+    def callee_of(t):
+        if t["t"] != "call":
+            return None
+        for k in ("resolved", "callee"):
+            c = t.get(k)
+            if c in cand:
+                return c
+        return None
+    # recursion check: drop candidates on a cycle among candidates
+    edges = {cid: set(callee_of(b["term"]) for b in f["blocks"]) - {None} for cid, f in cand.items()}
+
+    def reaches(a, b, seen):
+        if a in seen:
+            return False
+        seen.add(a)
+        return b in edges.get(a, ()) or any(reaches(x, b, seen) for x in edges.get(a, ()))
+    for cid in list(cand):
+        if reaches(cid, cid, set()):
+            del cand[cid]
+    if not cand:
+        return
+
+    def inline_into(f, depth):
+        changed = False
+        i = 0
+        while i < len(f["blocks"]):
+            blk = f["blocks"][i]
+            t = blk["term"]
+            cid = callee_of(t)
+            if cid is None or blk.get("cleanup") or depth <= 0 or len(f["blocks"]) > 1500:
+                i += 1
+                continue
+            g = cand[cid]
+            if g is f:
+                i += 1
+                continue
+            loff, boff = len(f["locals"]), len(f["blocks"])
+            # parameters
+            for k, a in enumerate(t["args"]):
+                blk["st"].append({"s": "assign", "pl": {"l": loff + k + 1, "p": []}, "rv": {"rv": "use", "op": a}, "line": t.get("line", 0), "inl": cid})
+            ret_to = t.get("to")
+            dest = t["dest"]
+            blk["term"] = {"t": "goto", "to": boff, "line": t.get("line", 0), "exp": t.get("exp", False), "inl_call": cid}
+            f["locals"] = f["locals"] + list(g["locals"])
+            for nm in g["names"]:
+                f["names"].append({"name": nm["name"], "pl": _remap(nm["pl"], loff, boff)})
+            for gb in g["blocks"]:
+                nb = _remap(gb, loff, boff)
+                if nb["term"]["t"] == "return":
+                    nb["st"].append({"s": "assign", "pl": dest, "rv": {"rv": "use", "op": {"k": "move", "pl": {"l": loff, "p": []}}}, "line": nb["term"].get("line", 0), "inl": cid})
+                    nb["term"] = ({"t": "goto", "to": ret_to, "line": nb["term"].get("line", 0), "exp": False} if ret_to is not None
+                                  else {"t": "unreachable", "line": nb["term"].get("line", 0), "exp": False})
+                f["blocks"].append(nb)
+            f.setdefault("inlined", []).append(cid)
+            for x in g.get("inlined", []):
+                if x not in f["inlined"]:
+                    f["inlined"].append(x)
+            record.setdefault(f["id"], []).append(cid)
+            changed = True
+            i += 1
+        return changed
+    # helpers first (so that a helper calling a helper is flattened), then everybody else
+    order = sorted(cand, key=lambda c: len(edges[c]))
+    for _ in range(max_depth):
+        if not any(inline_into(cand[c], 1) for c in order):
+            break
+    for f in d["functions"]:
+        if f["id"] in cand:
+            continue
+        for _ in range(max_depth):
+            if not inline_into(f, 1):
+                break
+    # an unknown helper passed as a function value (`.map(helper)`) is equivalent to the closure `|x| helper(x)`:
+    # synthesise that closure body (the helper's MIR with its parameters shifted past an empty environment)
+    # so that rules written for closures see the same shape
+    def shift_params(o):
+        if isinstance(o, list):
+            return [shift_params(x) for x in o]
+        if not isinstance(o, dict):
+            return o
+        if "l" in o and "p" in o and len(o) == 2:
+            sh = lambda l: l + 1 if l >= 1 else l
+            return {"l": sh(o["l"]), "p": [({**e, "idx": sh(e["idx"])} if isinstance(e, dict) and "idx" in e else e) for e in o["p"]]}
+        return {k: shift_params(v) for k, v in o.items()}
+    nsyn = 0
+    for f in list(d["functions"]):
+        if f["id"] in cand:
+            continue
+        for blk in f["blocks"]:
+            t = blk["term"]
+            if t["t"] != "call" or blk.get("cleanup"):
+                continue
+            for ai, a in enumerate(t["args"]):
+                if a.get("k") == "const" and a.get("fn") in cand and cand[a["fn"]].get("argc", 0) >= 1:
+                    g = cand[a["fn"]]
+                    sid = "%s::{closure#fnitem%d}" % (f["id"], nsyn)
+                    nsyn += 1
+                    syn = {"id": sid, "kind": "Closure", "span": g["span"], "argc": g["argc"] + 1, "parent": f["id"],
+                           "locals": [g["locals"][0], "[closure env]"] + list(g["locals"][1:]),
+                           "names": [{"name": nm["name"], "pl": shift_params(nm["pl"])} for nm in g["names"]],
+                           "blocks": shift_params(g["blocks"]), "synthetic_of": g["id"], "inlined": list(g.get("inlined", [])) + [g["id"]]}
+                    d["functions"].append(syn)
+                    nl = len(f["locals"])
+                    f["locals"] = f["locals"] + ["[closure " + sid + "]"]
+                    blk["st"].append({"s": "assign", "pl": {"l": nl, "p": []}, "rv": {"rv": "agg", "agg": "closure", "def": sid, "ops": []}, "line": t.get("line", 0), "inl": g["id"]})
+                    t["args"][ai] = {"k": "move", "pl": {"l": nl, "p": []}}
+                    record.setdefault(f["id"], []).append(g["id"])
+    # a helper whose every use was inlined is no longer a function of the program: drop it (and keep its
+    # closures, which are now reached through the callers' raw["inlined"])
+    inlined_ids = set(x for v in record.values() for x in v)
+    still_used = set()
+
+    def scan(o, owner):
+        if isinstance(o, dict):
+            if o.get("t") == "call":
+                for k in ("callee", "resolved"):
+                    if o.get(k) in inlined_ids and o.get(k) != owner:
+                        still_used.add(o[k])
+            if o.get("k") == "const" and o.get("fn") in inlined_ids:
+                still_used.add(o["fn"])
+            for v in o.values():
+                scan(v, owner)
+        elif isinstance(o, list):
+            for v in o:
+                scan(v, owner)
+    for f in d["functions"]:
+        if f["id"] in inlined_ids:
+            continue
+        scan(f["blocks"], f["id"])
+    gone = inlined_ids - still_used
+    if gone:
+        d["functions"] = [f for f in d["functions"] if f["id"] not in gone]
+        record["__removed__"] = sorted(gone)
